@@ -674,6 +674,44 @@ def fuzz_inputs(rng):
         bub = np.array([delta])
         me = 0
         aeq = np.zeros((0, n))
+    if n >= 3 and rng.random() < 0.06:
+        # structured family: two variables that are mirror images of each
+        # other (same gradient component, Hessian symmetric under their
+        # exchange, same bounds) up to ONE ULP in a gradient component or a
+        # bound: both reach their bounds at step lengths / angles that differ
+        # in the last bit, and only one of them is the minimiser
+        tags.append("ulp_ties")
+        g = rng.standard_normal(n) * gs
+        g[1] = g[0]
+        bb = rng.standard_normal((n, n))
+        h = 0.5 * (bb + bb.T) * hs
+        h[1, 1] = h[0, 0]
+        h[1, 2:] = h[0, 2:]
+        h[2:, 1] = h[2:, 0]
+        xl = np.full(n, -np.inf)
+        xu = np.full(n, np.inf)
+        lo = -float(rng.uniform(0.2, 0.9)) * scale
+        hi = float(rng.uniform(0.2, 0.9)) * scale
+        xl[0] = xl[1] = lo
+        xu[0] = xu[1] = hi
+        k = int(rng.integers(4))
+        if k == 0:
+            g[1] = np.nextafter(g[1], np.inf)
+        elif k == 1:
+            xl[1] = np.nextafter(xl[1], 0.0)
+        elif k == 2:
+            xu[1] = np.nextafter(xu[1], 0.0)
+        delta = float(scale * rng.uniform(0.8, 1.5))
+        m = 0
+        aub = np.zeros((0, n))
+        bub = np.zeros(0)
+        if rng.random() < 0.5 and n >= 3:
+            me = min(2, n - 1)
+            aeq = rng.standard_normal((me, n))
+            aeq[:, 1] = aeq[:, 0]
+        else:
+            me = 0
+            aeq = np.zeros((0, n))
     if n >= 2 and rng.random() < 0.05:
         # structured family: the gradient is dominated (by 6..12 decades) by
         # a multiple of the normal of an inequality that is active at the
